@@ -63,6 +63,10 @@ static void run_C18(const Args &a, long cs) {
 				double kn[3] = {-0.1, 0.0, 0.2}; for (int dim = -1; dim <= 1; dim++) if (splinetable_convolve(&h.c, dim, kn, 3) == 0) fail("splinetable_convolve:succeeded-on-empty-table", "dim=" + std::to_string(dim));
 				size_t pm[2] = {0, 1}; if (splinetable_permute(&h.c, pm) == 0 && T.get_ndim() == 0) { bool twinthrew = false; try { std::vector<size_t> e; T.permuteDimensions(e); } catch (std::exception &) { twinthrew = true; } if (twinthrew) fail("splinetable_permute:return-code-differs-from-C++-outcome", "empty table"); }
 				if (writesplinefitstable(outpath.c_str(), &h.c) == 0) fail("writesplinefitstable:succeeded-on-empty-table", ""); splinetable_buffer wb; wb.data = nullptr; wb.size = 0; if (writesplinefitstable_mem(&wb, &h.c) == 0) fail("writesplinefitstable_mem:succeeded-on-empty-table", ""); free(wb.data);
+				// lookup and evaluation: nothing can be looked up in an empty table; none of these calls may take the process down
+				{ phase_log("lookup and evaluation on an empty table"); double x0[2] = {0.5, 0.5}; int c0[2] = {0, 0}; double g0[3] = {7, 7, 7}; unsigned de[2] = {0, 0};
+				  int sc = tablesearchcenters(&h.c, x0, c0); if (sc != 0) fail("tablesearchcenters:reports-success-on-empty-table", "returned " + std::to_string(sc));
+				  double v = ndsplineeval(&h.c, x0, c0, 0); (void)v; ndsplineeval_gradient(&h.c, x0, c0, g0); v = ndsplineeval_deriv(&h.c, x0, c0, de); count("calls:evaluation-on-empty-table"); }
 				if (splinetable_ndim(&h.c) != 0) fail("state:empty-table-changed-by-failing-calls", "");
 				continue;
 			}
